@@ -36,6 +36,7 @@ type Profile struct {
 	Throttle    int
 	Denials     bool // the access policy denies some (token, resource) pairs
 	Malformed   bool // malformed client frames, service answers, events and system events injected
+	StopAt      bool // inject Stop or messaging loss at a random step, then check the shutdown contract
 	LongRids    bool // resource ids around the control-line limit
 	Endgame     bool // finish by disconnecting every client and firing every eviction timer
 }
@@ -431,8 +432,13 @@ func Explore(seed int64, p Profile) (run *gw.Run, stall error) {
 		x.Run.Do(gw.Action{A: "frame", C: c.Label, Text: fmt.Sprintf(`{"id":%d,"method":"version","params":{"protocol":"1.2.1"}}`, x.nextID[c.Label])})
 	}
 	stimuli := 0
+	stopStep := 3 + x.R.Intn(60)
 	for x.steps = 0; x.steps < 4000; x.steps++ {
 		from := len(x.Run.Lines)
+		if p.StopAt && x.steps == stopStep {
+			x.Run.Do(gw.Action{A: "stop", Subj: x.R.Pick("stop", "mqloss")})
+			break
+		}
 		ready := x.Run.W.Ready()
 		pend := x.Run.W.MQ.Pending()
 		internal := len(ready) + len(pend)
@@ -553,6 +559,12 @@ func Explore(seed int64, p Profile) (run *gw.Run, stall error) {
 			}
 		}
 		x.noteResponses(from)
+	}
+	if p.StopAt {
+		if n := len(x.Run.Actions); n == 0 || x.Run.Actions[n-1].A != "stop" {
+			x.Run.Do(gw.Action{A: "stop", Subj: x.R.Pick("stop", "mqloss")})
+		}
+		return run, nil
 	}
 	x.quiesce("final")
 	if p.Endgame {
